@@ -344,13 +344,23 @@ theorem genParent_eq (g : Graph) (v : Nat) (skip : Bool) : genParent g v skip = 
 
 /-! ### constructors -/
 
+theorem asymCount_beq_zero (g : Graph) : (g.asymCount == 0) = g.symmetricB := by
+  rw [Bool.eq_iff_iff]
+  simp only [Graph.asymCount, Graph.symmetricB, beq_iff_eq, List.length_eq_zero_iff, List.flatMap_eq_nil_iff,
+    List.filter_eq_nil_iff, List.mem_range, List.all_eq_true, bne_iff_ne, ne_eq, Decidable.not_not]
+
+/-- `_is_symmetric` (menpo's own helper, both of its branches) is the model's symmetry test -/
+theorem genIsSymmetric_eq (m : RawMat) : genIsSymmetric m = m.graph.symmetricB := by
+  cases h : m.isSparse <;> simp [genIsSymmetric, h, asymCount_beq_zero]
+
 theorem genGraphInit_eq (directed : Bool) (m : RawMat) (copy skip : Bool) :
     genGraphInit directed m copy skip = graphInit directed m skip := by
-  obtain ⟨k, r, c, w⟩ := m
+  obtain ⟨k, r, c, w, z⟩ := m
   by_cases h0 : r = 0 <;> by_cases h1 : r = c <;>
-    cases hs : (RawMat.graph ⟨k, r, c, w⟩).symmetricB <;>
+    cases hs : (RawMat.graph ⟨k, r, c, w, z⟩).symmetricB <;>
     cases k <;> cases skip <;> cases copy <;> cases directed <;>
-    simp [genGraphInit, graphInit, h0, h1, hs] <;> simp_all [RawMat.graph]
+    simp [genGraphInit, genIsSymmetric_eq, graphInit, RawMat.graphOf, RawMat.eliminateZeros, h0, h1, hs] <;>
+    simp_all [RawMat.graph, RawMat.graphOf, RawMat.eliminateZeros]
 
 theorem genUndirectedGraphInit_eq (m : RawMat) (copy skip : Bool) :
     genUndirectedGraphInit m copy skip = (graphInit false m skip).map fun g => (false, g) := by
